@@ -4,7 +4,8 @@
    class: verifier.AccountBlock (getContext + all() in its order), vm.applyBlock (plasma, embedded validation, funds,
    regenerate-and-compare), verifier.AccountBlockTransaction (hash, signature, producer, descendants).
    [Valid] spells the clauses of the property on the block and on what the node knows (ctx). *)
-From ZV Require Import Prelude Ledger Verifier VerifierProofs.
+From ZV Require Import Prelude Ledger Verifier VerifierProofs VerifierSource.
+Require ZV.gen.Pure.
 Open Scope Z_scope.
 
 (* for all node states (ctx) and all candidate blocks *)
@@ -84,3 +85,56 @@ Example C03_accept_examples :
   apply_block ex_ctx (mkV 1 100 T_USER_SEND 4000 4000 2001 6 2500 9 101 102 (Some 300) 1 0 [] 21000 0 false 0 32 64 true 103) = V_PublicKeyWrongAddress /\
   apply_block ex_ctx (mkV 1 100 T_USER_SEND 4000 4009 2001 6 2500 9 101 102 (Some 300) 1 0 [] 21000 0 false 0 32 64 true 101) = V_HashInvalid.
 Proof. vm_compute. repeat split; reflexivity. Qed.
+
+(* ---- the checks of the acceptance model ARE the code: every method of verifier.accountBlockVerifier
+   (verifier/account_block.go) is translated from /repo's source by go2coq on every run (gen/Pure.v, abv_...) and equals
+   its model ck_... in theories/Verifier.v; store reads, IsEmbeddedAddress and CheckPoWNonce are inputs of the
+   translations, hashes / (hash, height) pairs / headers enter as numbers under any injective encoding (one exists:
+   C03_encoding_exists). vcode maps go2coq's error numbers to the verdict codes of the model. *)
+Theorem C03_version_is_the_source : forall v, vcode (ZV.gen.Pure.abv_version v) = ck_version v.
+Proof. exact version_is_source. Qed.
+Theorem C03_chain_identifier_is_the_source : forall cid expected,
+  vcode (ZV.gen.Pure.abv_chainIdentifier cid expected) = ck_chain cid expected.
+Proof. exact chain_is_source. Qed.
+Theorem C03_block_type_is_the_source : forall t emb, vcode (ZV.gen.Pure.abv_blockType t emb) = ck_type t emb.
+Proof. exact type_is_source. Qed.
+Theorem C03_amounts_is_the_source : forall t nn a zts to from,
+  vres (ZV.gen.Pure.abv_amounts t nn a zts (from =? 0) to) = ck_amounts t (if nn then Some a else None) zts to from.
+Proof. exact amounts_is_source. Qed.
+Theorem C03_pow_is_the_source : forall d emb pow_ok, vcode (ZV.gen.Pure.abv_pow d emb pow_ok) = ck_pow d emb pow_ok.
+Proof. exact pow_is_source. Qed.
+Theorem C03_verifier_all_is_the_source :
+  forall (enc : Z -> Z -> Z), (forall a b a' b', enc a b = enc a' b' -> a = a' /\ b = b') -> enc 0 0 = 0 ->
+  forall (hdr : Z -> Z), (forall a a', hdr a = hdr a' -> a = a') ->
+  forall c b pm, c_prev_ma_height c = Some pm ->
+  vres (src_all enc hdr c b pm) = all_model c b.
+Proof. exact all_is_source. Qed.
+Theorem C03_previous_is_the_source :
+  forall (enc : Z -> Z -> Z), (forall a b a' b', enc a b = enc a' b' -> a = a' /\ b = b') ->
+  forall c b,
+  vcode (ZV.gen.Pure.abv_previous (v_height b) (v_prev b =? 0) (is_emb (v_addr b)) 0
+           (match c_frontier c with Some _ => true | None => false end)
+           (match c_frontier c with Some f => enc2 enc f | None => 0 end)
+           (enc2 enc (eff_prev b))) = ck_previous c b.
+Proof. exact previous_is_source. Qed.
+Theorem C03_from_hash_is_the_source : forall c b,
+  vcode (ZV.gen.Pure.abv_fromHash (v_type b) 0 (match c_from_to c with Some _ => true | None => false end)
+           (v_addr b) (match c_from_to c with Some to => to | None => 0 end)
+           (c_frontier_height c) (c_enf_height c) (c_received c)) = ck_from c b.
+Proof. exact from_is_source. Qed.
+Theorem C03_sequencer_is_the_source :
+  forall (hdr : Z -> Z), (forall a a', hdr a = hdr a' -> a = a') ->
+  forall c b,
+  vcode (ZV.gen.Pure.abv_sequencer (is_emb (v_addr b)) (v_type b) (match c_next c with Some _ => true | None => false end) 0
+           (hdr (v_from b)) (match c_next c with Some h => hdr h | None => 0 end)) = ck_sequencer c b.
+Proof. exact sequencer_is_source. Qed.
+(* the tail of verify_block's list of checks is all_model *)
+Theorem C03_verify_block_uses_all : forall c b,
+  verify_block c b =
+  first_err [ (if v_type b =? T_CONTRACT_SEND then V_TypeInvalidExternal else 0); ck_context c b; all_model c b ].
+Proof. exact verify_block_uses_all. Qed.
+(* non-vacuity of the encoding hypotheses *)
+Theorem C03_encoding_exists : exists enc : Z -> Z -> Z,
+  (forall a b a' b', enc a b = enc a' b' -> a = a' /\ b = b') /\ enc 0 0 = 0.
+Proof. exists enc_ex. split; [exact enc_ex_inj|exact enc_ex_zero]. Qed.
+
